@@ -25,7 +25,7 @@ import itertools
 from typing import Any
 
 from hv.clock import patched_time
-from hv.gen import argnames
+from hv.gen import argnames, stacking
 from hv.loop import VClock, run_virtual
 from hv.record import Recorder
 
@@ -339,6 +339,7 @@ def argname_wrappers() -> dict[str, tuple[Any, bool, bool]]:
 def run(R: Recorder, tier: str, seed: int, shard: int, nshards: int) -> None:
     if shard == 0:
         argnames.check(R, "arguments", argname_wrappers())
+        stacking.check_transparent(R, "outcome", "timeout")
     R.flags["exhaustive"] = True
     R.flags["exhaustive_core"] = "full table durations x outcomes x timeouts x cancel instants x scoped (+ nested timeouts)"
     for i, case in enumerate(cases(tier)):
@@ -349,5 +350,8 @@ def run(R: Recorder, tier: str, seed: int, shard: int, nshards: int) -> None:
 def replay(R: Recorder, case: dict[str, Any]) -> None:
     if "argnames" in case:
         argnames.check(R, "arguments", argname_wrappers(), only=case["argnames"])
+        return
+    if "stacking" in case:
+        stacking.check_transparent(R, "outcome", "timeout", only=case["stacking"])
         return
     (run_overlap if case.get("overlap") else run_case)(R, case, verbose=True)
